@@ -8,7 +8,11 @@ SPEC = {
               10: "pb_roundtrip (stored protobuf form of a well-formed pin)",
               11: "pb_decode_total (a decoded stored form is re-encodable and stable)",
               12: "query_roundtrip (ToQuery / FromQuery of well-formed options)",
-              13: "query_decode_stable (options decoded from a query re-encode to themselves)"},
+              13: "query_decode_stable (options decoded from a query re-encode to themselves)",
+              14: "names_roundtrip (status filter / pin type / pin mode through its string form)"},
+    "gen": ["C08Status"],
+    "force": ["Gen/C08Status.v", "Model/C08_Status.v", "Proofs/C08_Status.v", "Model/C08_Check.v"],
+    "diag": True,
     "tags": {},
     "trusted": [],
     "level_text": "wip",
